@@ -23,6 +23,11 @@ Deliver(e, i) ==
     ELSE IF e.others # <<>> THEN Report(i, "MISMATCH", "something besides the destination was written: " \o e.others[1])
     ELSE IF e.stdout # D!Stdout(e.mode, e.dest, c) THEN Report(i, "MISMATCH", "standard output is " \o e.stdout \o ", expected " \o D!Stdout(e.mode, e.dest, c))
     ELSE IF ~e.warnings_same THEN Report(i, "MISMATCH", "compile() returns other warnings than compile_to_string()")
+    \* the hook trace of the call (library only; -1 where no hooks were recorded): output_generated is reached exactly once, as the
+    \* last step, iff internal_compile succeeded -- Delivery!InternalCompile goes to "done" on failure without a deliver step
+    ELSE IF e.delivers >= 0 /\ e.delivers # (IF c = "ok" THEN 1 ELSE 0)
+        THEN Report(i, "MISMATCH", "output delivery was reached " \o ToString(e.delivers) \o " times for a compilation that is " \o c)
+    ELSE IF e.delivers = 1 /\ ~e.deliver_last THEN Report(i, "MISMATCH", "pipeline steps ran after the output was delivered")
     ELSE TRUE
 
 Macro(e, i) ==
